@@ -270,6 +270,14 @@ func NewEpochFromConfig(
 				if !lastRootCid.Equals(gotRootCid) {
 					return nil, fmt.Errorf("root CID mismatch in gsfa index: expected %s, got %s", lastRootCid, gotRootCid)
 				}
+				// the manifest and the pubkey-to-offset-and-size index are separate files: check both.
+				offsetsMeta := gsfaIndex.OffsetsMeta()
+				if ep.Epoch() != offsetsMeta.Epoch {
+					return nil, fmt.Errorf("epoch mismatch in gsfa pubkey-to-offset-and-size index: expected %d, got %d", ep.Epoch(), offsetsMeta.Epoch)
+				}
+				if !lastRootCid.Equals(offsetsMeta.RootCid) {
+					return nil, fmt.Errorf("root CID mismatch in gsfa pubkey-to-offset-and-size index: expected %s, got %s", lastRootCid, offsetsMeta.RootCid)
+				}
 			}
 		}
 	}
